@@ -900,8 +900,9 @@ def layout_rule(m, rid, floor=150):
                         "boundary produces) changes neither acceptance nor the printed text (matchers interpreted; children are recording stubs "
                         "validated two levels deep)")
     r.floor = floor
-    world = World(m)
-    for cname, text in SAMPLES:
+    worlds = {"f2003": World(m, "f2003"), "f2008": World(m, "f2008")}
+    for std_, cname, text in [("f2003", c_, t_) for c_, t_ in SAMPLES] + [("f2008", c_, t_) for c_, t_ in SAMPLES_2008]:
+        world = worlds[std_]
         key = world.classes.get(cname)
         if key is None or " " not in text:
             continue
@@ -911,7 +912,23 @@ def layout_rule(m, rid, floor=150):
             continue
         if o1 is None:
             continue
-        for wide in widenings(text):
+        def upper_outside(t):
+            out, q = [], None
+            for ch in t:
+                if q:
+                    out.append(ch)
+                    if ch == q:
+                        q = None
+                elif ch in "'\"":
+                    q = ch
+                    out.append(ch)
+                else:
+                    out.append(ch.upper())
+            return "".join(out)
+        variants = widenings(text)
+        if upper_outside(text) != text:
+            variants.append(upper_outside(text))          # keywords and names in upper case: same statement
+        for wide in variants:
             r.instances += 1
             try:
                 o2 = _once(world, key, wide)
